@@ -64,6 +64,13 @@ fn main() {
             let code = run_property(p.as_ref(), &RunOpts { tier, seed, jobs, cases_override: cases });
             std::process::exit(code);
         }
+        "c07-digest" => {
+            let seed: u64 = args.get(1).and_then(|s| s.parse().ok()).unwrap_or(1);
+            let n: usize = args.get(2).and_then(|s| s.parse().ok()).unwrap_or(10);
+            for (_, h) in pv::props::c07::digest_batch(seed, n) {
+                println!("{}", h);
+            }
+        }
         "replay" => {
             if args.len() < 3 {
                 usage();
